@@ -259,6 +259,10 @@ class Program:
             self.relocated = relocate_moved_definitions({m.name: m.tree for m in self.modules.values()})
             from .relocate import reattach_static_aliases
             self.relocated += reattach_static_aliases({m.name: m.tree for m in self.modules.values()})
+            from .relocate import flatten_new_bases
+            self.relocated += flatten_new_bases({m.name: m.tree for m in self.modules.values()})
+            from .relocate import restore_function_names
+            self.relocated += restore_function_names({m.name: m.tree for m in self.modules.values()})
             from .normalize import drop_observability
             drop_observability({m.name: m.tree for m in self.modules.values()})
             from .normalize import merge_early_returns
@@ -303,7 +307,15 @@ class Program:
             self._index_nested(f)
         for cls in self.classes.values():
             if isinstance(cls.methods, _Methods):
-                cls.methods.fallback = (lambda name, m=cls.module: self.funcs.get(f"{m.name}.{name}") if not name.startswith("__") else None)
+                def _fb(name, c=cls, m=cls.module):
+                    if name.startswith("__"):
+                        return None
+                    # a method moved to a base class / mixin of the package is inherited: the same anchor
+                    for b in c.mro()[1:]:
+                        if dict.__contains__(b.methods, name):
+                            return dict.__getitem__(b.methods, name)
+                    return self.funcs.get(f"{m.name}.{name}")
+                cls.methods.fallback = _fb
 
     def _index_module(self, mod: Module):
         for st in mod.tree.body:
